@@ -454,6 +454,11 @@ def gen_ip(rng, n, with_dE=True):
                 dE = depth * (1 + rng.expovariate(1.0))
             else:
                 dE = budget(rng, depth)
+        if kc > 0 and not front and rng.random() < 0.06:
+            # on purpose within 2^-30 of the branch boundary "can / cannot climb"
+            dE = (Urho - Ucur) * (1 + rng.choice([-1, 1]) * 2.0 ** -rng.randrange(31, 45))
+        if kc < 0 and rng.random() < 0.06:
+            dE = (-Urho if not front else -Ucur) * (1 + rng.choice([-1, 1]) * 2.0 ** -rng.randrange(31, 45))
         if not (dE > 0 and math.isfinite(dE)):
             dE = rng.expovariate(1.0)
         op = {"k": "ip_disp", "p": f2b(p), "p_int": int(p == int(p) and rng.random() < 0.5), "pref": f2b(pref),
@@ -526,6 +531,11 @@ def gen_mh(rng, n, kind):
                 dE = -Ustart * rng.uniform(0.02, 0.98)
             else:
                 dE = budget(rng, scale)
+        if rng.random() < 0.05 and qf < m.r0sq:
+            # on purpose within 2^-30 of the boundary inside / outside the minimum sphere
+            rr = m.r0 * (1 + rng.choice([-1, 1]) * 2.0 ** -rng.randrange(31, 45))
+            sep[d] = math.copysign(math.sqrt(max(rr * rr - qf, 0.0)), xx)
+            dE = budget(rng, 0.25 * k if kind == "lj" else k * (0.5 * m.r0) ** m.p, small_ok=False)
         if not (dE > 0 and math.isfinite(dE)):
             dE = rng.expovariate(1.0) * 0.1
         op = {"k": kind + "_disp", "k_": f2b(k), "sep": bits(sep), "dir": d, "speed": f2b(rng.choice(SPEEDS)),
